@@ -24,6 +24,7 @@
  * the window included).  Any mismatch: `ORACLE ...` on stderr, exit status 3.
  *
  * usage: uatomic <seed> directed [light] | exh8 <stride> | random <n> | rtype | hammer <threads> <iters> | litmus <rounds>
+ *        | plainstore   ("plain C store then RMW" facet; built at -O1, -O2, -O3)
  */
 #include <stdio.h>
 #include <stdlib.h>
@@ -659,6 +660,181 @@ static void litmus(unsigned long rounds)
 	}
 }
 
+/* ------------------------------------------------------------------------------------------ */
+/* "plain store then RMW" facet (compiler contract of the inline asm / builtins).
+ *
+ * Genuine defect found on the unchanged tree (repaired in /repo by "fix: x86 uatomic add/sub/inc/dec/and/or
+ * read their memory operand"): __uatomic_and/or/add/inc/dec declared their memory operand write-only ("=m"),
+ * so gcc -O2 deleted a preceding PLAIN C store to the same object as dead:
+ *     g = 5; cmm_barrier(); g = 10; uatomic_inc(&g);   left g == 6.
+ * The streams above never have a plain store and the RMW in one function, so they cannot see this.  Here,
+ * for every RMW op x pointee type, separate noinline/noclone functions (this file is built at -O1, -O2 and
+ * -O3 for this mode) do
+ *     fwd : *p = a; cmm_barrier(); *p = b; uatomic_op(p, v); return *p;     (expected op(b, v))
+ *     fwd1:                        *p = b; uatomic_op(p, v); return *p;
+ *     rev : before = *p; uatomic_op(p, v); return *p;                       (the load after must be fresh)
+ * on a global, a function-local static, an object malloc'ed inside the function and through a pointer
+ * parameter.  Checked by the plain-C reference `ref` (oracle level: this is about what the compiler may
+ * assume about the asm operands, which the Lean model of the header text does not represent); each case is
+ * also printed as an ordinary operation line (old image = the value of the latest plain store) so that
+ * the driver replays it on the model as well. */
+struct ps_res { uint64_t ret, fin, before; };
+typedef struct ps_res (*psfn)(uint64_t, uint64_t, uint64_t, uint64_t, void *);
+
+#define PSDO_add(p, v, v2, r)		uatomic_add(p, v)
+#define PSDO_sub(p, v, v2, r)		uatomic_sub(p, v)
+#define PSDO_inc(p, v, v2, r)		uatomic_inc(p)
+#define PSDO_dec(p, v, v2, r)		uatomic_dec(p)
+#define PSDO_and(p, v, v2, r)		uatomic_and(p, v)
+#define PSDO_or(p, v, v2, r)		uatomic_or(p, v)
+#define PSDO_add_return(p, v, v2, r)	r = uatomic_add_return(p, v)
+#define PSDO_sub_return(p, v, v2, r)	r = uatomic_sub_return(p, v)
+#define PSDO_xchg(p, v, v2, r)		r = uatomic_xchg(p, v)
+#define PSDO_cmpxchg(p, v, v2, r)	r = uatomic_cmpxchg(p, v, v2)
+
+#define PS_ATTR __attribute__((noinline, noclone)) static struct ps_res
+#define PSFN(TN, T, OP)												\
+T psobj_##TN##_##OP;												\
+PS_ATTR ps_glob_##TN##_##OP(uint64_t a_, uint64_t b_, uint64_t v_, uint64_t v2_, void *unused)			\
+{														\
+	struct ps_res res = { 0, 0, 0 }; T a = (T) a_, b = (T) b_, v = (T) v_, v2 = (T) v2_, r = 0;		\
+	(void) unused; (void) v; (void) v2;									\
+	psobj_##TN##_##OP = a; cmm_barrier(); psobj_##TN##_##OP = b;						\
+	PSDO_##OP(&psobj_##TN##_##OP, v, v2, r);								\
+	res.fin = (uint64_t) psobj_##TN##_##OP; res.ret = (uint64_t) r; return res;				\
+}														\
+PS_ATTR ps_stat_##TN##_##OP(uint64_t a_, uint64_t b_, uint64_t v_, uint64_t v2_, void *unused)			\
+{														\
+	static T s;												\
+	struct ps_res res = { 0, 0, 0 }; T a = (T) a_, b = (T) b_, v = (T) v_, v2 = (T) v2_, r = 0;		\
+	(void) unused; (void) v; (void) v2;									\
+	s = a; cmm_barrier(); s = b;										\
+	PSDO_##OP(&s, v, v2, r);										\
+	res.fin = (uint64_t) s; res.ret = (uint64_t) r; return res;						\
+}														\
+PS_ATTR ps_heap_##TN##_##OP(uint64_t a_, uint64_t b_, uint64_t v_, uint64_t v2_, void *unused)			\
+{														\
+	struct ps_res res = { 0, 0, 0 }; T a = (T) a_, b = (T) b_, v = (T) v_, v2 = (T) v2_, r = 0;		\
+	T *p = (T *) malloc(sizeof(T));										\
+	(void) unused; (void) v; (void) v2;									\
+	if (!p) abort();											\
+	*p = a; cmm_barrier(); *p = b;										\
+	PSDO_##OP(p, v, v2, r);											\
+	res.fin = (uint64_t) *p; res.ret = (uint64_t) r; free(p); return res;					\
+}														\
+PS_ATTR ps_ptr_##TN##_##OP(uint64_t a_, uint64_t b_, uint64_t v_, uint64_t v2_, void *p_)			\
+{														\
+	struct ps_res res = { 0, 0, 0 }; T a = (T) a_, b = (T) b_, v = (T) v_, v2 = (T) v2_, r = 0;		\
+	T *p = (T *) p_;											\
+	(void) v; (void) v2;											\
+	*p = a; cmm_barrier(); *p = b;										\
+	PSDO_##OP(p, v, v2, r);											\
+	res.fin = (uint64_t) *p; res.ret = (uint64_t) r; return res;						\
+}														\
+PS_ATTR ps_fwd1_##TN##_##OP(uint64_t a_, uint64_t b_, uint64_t v_, uint64_t v2_, void *p_)			\
+{														\
+	struct ps_res res = { 0, 0, 0 }; T b = (T) b_, v = (T) v_, v2 = (T) v2_, r = 0;				\
+	T *p = (T *) p_;											\
+	(void) a_; (void) v; (void) v2;										\
+	*p = b;													\
+	PSDO_##OP(p, v, v2, r);											\
+	res.fin = (uint64_t) *p; res.ret = (uint64_t) r; return res;						\
+}														\
+PS_ATTR ps_rev_##TN##_##OP(uint64_t a_, uint64_t b_, uint64_t v_, uint64_t v2_, void *p_)			\
+{														\
+	struct ps_res res = { 0, 0, 0 }; T v = (T) v_, v2 = (T) v2_, r = 0, before;				\
+	T *p = (T *) p_;											\
+	(void) a_; (void) b_; (void) v; (void) v2;								\
+	before = *p;												\
+	PSDO_##OP(p, v, v2, r);											\
+	res.fin = (uint64_t) *p; res.before = (uint64_t) before; res.ret = (uint64_t) r; return res;		\
+}
+#define PSFNS(TN, T)												\
+	PSFN(TN, T, add) PSFN(TN, T, sub) PSFN(TN, T, inc) PSFN(TN, T, dec) PSFN(TN, T, and) PSFN(TN, T, or)	\
+	PSFN(TN, T, add_return) PSFN(TN, T, sub_return) PSFN(TN, T, xchg) PSFN(TN, T, cmpxchg)
+PSFNS(s8, signed char) PSFNS(u8, unsigned char) PSFNS(s16, short) PSFNS(u16, unsigned short)
+PSFNS(s32, int) PSFNS(u32, unsigned int) PSFNS(s64, long) PSFNS(u64, unsigned long)
+
+enum { PS_GLOB, PS_STAT, PS_HEAP, PS_PTR, PS_FWD1, PS_REV, PS_NVAR };
+static const char *ps_varname[PS_NVAR] = { "fwd-global", "fwd-static", "fwd-malloc", "fwd-pointer", "fwd1-pointer", "rev-pointer" };
+#define PSROW(TN, OP) { ps_glob_##TN##_##OP, ps_stat_##TN##_##OP, ps_heap_##TN##_##OP, ps_ptr_##TN##_##OP, ps_fwd1_##TN##_##OP, ps_rev_##TN##_##OP }
+#define PSROWS(TN) { PSROW(TN, add), PSROW(TN, sub), PSROW(TN, inc), PSROW(TN, dec), PSROW(TN, and), PSROW(TN, or),	\
+		     PSROW(TN, add_return), PSROW(TN, sub_return), PSROW(TN, xchg), PSROW(TN, cmpxchg) }
+static const psfn ps_table[8][10][PS_NVAR] = { PSROWS(s8), PSROWS(u8), PSROWS(s16), PSROWS(u16), PSROWS(s32), PSROWS(u32),
+						PSROWS(s64), PSROWS(u64) };
+static const int ps_ops[10] = { OP_ADD, OP_SUB, OP_INC, OP_DEC, OP_AND, OP_OR, OP_ADD_RETURN, OP_SUB_RETURN, OP_XCHG, OP_CMPXCHG };
+
+/* the caller-side plain store for the `rev` variant, opaque to the optimizer */
+__attribute__((noinline, noclone)) static void ps_plant(void *p, int w, uint64_t v)
+{
+	memcpy(p, &v, (size_t) (w / 8));	/* little endian host (x86-64) */
+	__asm__ __volatile__("" : : "r"(p) : "memory");
+}
+
+static void plainstore(void)
+{
+	static union { unsigned char c[16]; unsigned long l; } cell __attribute__((aligned(16)));
+	int tix, oi, var, k, i;
+	char h1[33], h2[33];
+	unsigned char img[16];
+
+	for (tix = 0; tix < 8; tix++)
+	for (oi = 0; oi < 10; oi++) {
+		int op = ps_ops[oi], w = t_width[tix], s = t_signed[tix], nv;
+		uint64_t m = mask(w), vals[8][4], bv[16];
+		nv = 0;
+		boundary(w, bv);
+		/* (a, b, v, v2): the demo's values, boundary values, random */
+		vals[nv][0] = 5; vals[nv][1] = 10; vals[nv][2] = 3; vals[nv][3] = 7; nv++;
+		vals[nv][0] = 0; vals[nv][1] = bv[4] /* max */; vals[nv][2] = 1; vals[nv][3] = bv[3]; nv++;
+		vals[nv][0] = m; vals[nv][1] = bv[3] /* min */; vals[nv][2] = m /* -1 */; vals[nv][3] = 0; nv++;
+		vals[nv][0] = 0x5555555555555555ULL & m; vals[nv][1] = 0xAAAAAAAAAAAAAAAAULL & m; vals[nv][2] = 0x0F0F0F0F0F0F0F0FULL & m; vals[nv][3] = m; nv++;
+		vals[nv][0] = rnd() & m; vals[nv][1] = rnd() & m; vals[nv][2] = rnd() & m; vals[nv][3] = rnd() & m; nv++;
+		vals[nv][0] = rnd() & m; vals[nv][1] = m; vals[nv][2] = rnd() & m; vals[nv][3] = rnd() & m; nv++;
+		for (var = 0; var < PS_NVAR; var++)
+		for (k = 0; k < nv + (op == OP_CMPXCHG ? nv : 0); k++) {
+			uint64_t a = vals[k % nv][0], b = vals[k % nv][1], v = vals[k % nv][2], v2 = vals[k % nv][3];
+			uint64_t rnew, rret, eres, efin;
+			struct ps_res res;
+			int rhas, badv;
+			if (op == OP_CMPXCHG && k >= nv)
+				v = b;	/* succeeding compare */
+			memset(&cell, 0xEE, sizeof cell);
+			if (var == PS_REV)
+				ps_plant(&cell, w, b);
+			res = ps_table[tix][oi][var](a, b, v, v2, &cell);
+			ref(op, w, b, opnd64(K_N, s, w, v), opnd64(K_N, s, w, v2), &rnew, &rret, &rhas);
+			eres = rhas ? (s ? sext(rret, w) : (rret & m)) : 0;
+			efin = s ? sext(rnew, w) : (rnew & m);
+			ncases++;
+			badv = res.fin != efin || res.ret != eres || (var == PS_REV && (res.before & m) != b);
+			if (badv) {
+				if (oracle_fail < 10)
+					fprintf(stderr, "ORACLE plainstore %s uatomic_%s width=%d signed=%d: plain stores a=%llx then b=%llx, "
+						"operand %llx %llx: object afterwards %llx, returned %llx; reference: object %llx, returned %llx "
+						"(a plain C store before the RMW, or the load after it, was not honoured)\n",
+						ps_varname[var], opname[op], w, s, (unsigned long long) a, (unsigned long long) b,
+						(unsigned long long) v, (unsigned long long) v2, (unsigned long long) res.fin,
+						(unsigned long long) res.ret, (unsigned long long) efin, (unsigned long long) eres);
+				oracle_fail++;
+			}
+			/* the same case as an ordinary operation line for the Lean driver */
+			memset(img, 0, 16);
+			for (i = 0; i < w / 8; i++) img[i] = (unsigned char) (b >> (8 * i));
+			hex16(h1, img);
+			for (i = 0; i < w / 8; i++) img[i] = (unsigned char) (res.fin >> (8 * i));
+			hex16(h2, img);
+			printf("# plainstore %s\n", ps_varname[var]);
+			printf("%s %d %d 0 %s", opname[op], w, s, h1);
+			if (op_nargs[op] >= 1) printf(" n:%llx", (unsigned long long) (v & m));
+			if (op_nargs[op] >= 2) printf(" n:%llx", (unsigned long long) (v2 & m));
+			if (rhas) printf(" -> %016llx %s\n", (unsigned long long) res.ret, h2);
+			else printf(" -> - %s\n", h2);
+			nprinted++;
+		}
+	}
+}
+
 int main(int argc, char **argv)
 {
 	unsigned long seed = argc > 1 ? strtoul(argv[1], 0, 0) : 1;
@@ -684,6 +860,11 @@ int main(int argc, char **argv)
 		rtype_s32(32, 1); rtype_u32(32, 0); rtype_s64(64, 1); rtype_u64(64, 0);
 	} else if (!strcmp(mode, "hammer")) {
 		hammer(argc > 3 ? atoi(argv[3]) : 4, argc > 4 ? strtoul(argv[4], 0, 0) : 100000);
+	} else if (!strcmp(mode, "plainstore")) {
+#ifdef __OPTIMIZE__
+		printf("# optimize 1\n");
+#endif
+		plainstore();
 	} else if (!strcmp(mode, "litmus")) {
 		litmus(argc > 3 ? strtoul(argv[3], 0, 0) : 20000);
 	} else {
